@@ -16,6 +16,7 @@ import (
 	"github.com/jech/galene/conn"
 	"github.com/jech/galene/diskwriter"
 	"github.com/jech/galene/group"
+	"github.com/jech/galene/rtpconn"
 	"github.com/jech/galene/token"
 	"github.com/jech/galene/webserver"
 
@@ -524,6 +525,22 @@ func (w *world) driveGroupLayer(s string) {
 				w.viol("joined-invalid-name/group", fmt.Sprintf("a client joined group %q under the invalid name %q (%s)", g.Name(), s, refReason(s)), c.name)
 			}
 		}
+	}, nil)
+
+	// the same through the signalling protocol: a real web client's join message
+	c = octx{name: "join-group-websocket", kind: kGroup}
+	w.run(c, func() {
+		wc := rtpconn.VerifNewClient("c19-ws")
+		raw, _ := json.Marshal(map[string]any{"type": "join", "kind": "join", "group": s, "username": user, "password": pw})
+		err := wc.Handle(raw)
+		note(c.name, err)
+		if g := wc.Group(); g != nil {
+			w.served++
+			if !refGroup(s) || g.Name() != s {
+				w.viol("joined-invalid-name/group-websocket", fmt.Sprintf("a join message naming group %q made the client a member of %q (%s)", s, g.Name(), refReason(s)), c.name)
+			}
+		}
+		wc.Exit(fmt.Errorf("done"))
 	}, nil)
 
 	c = octx{name: "join-username", kind: kGroup}
